@@ -108,7 +108,7 @@ abbrev ProcRes := Except LoadErr ProcOut
 def errAt (m : Mark) (keys : List String := []) : LoadErr := .recognition [⟨[m], keys⟩]
 
 def fatalToErr (n : Node) : Fatal → LoadErr
-  | .seasoning => errAt n.mark
+  | .seasoning ms => .recognition [⟨n.mark :: ms, []⟩]
   | .hook => .other "hook"
   | .unregistered => .recognition [⟨[], []⟩]
   | .dictKey => .other "RuntimeError"
